@@ -385,7 +385,7 @@ func main() {
 	violations := 0
 	sort.Slice(unknown, func(i, j int) bool { return unknown[i].Sig < unknown[j].Sig })
 	seenSig := map[string]bool{}
-	os.MkdirAll(filepath.Join(verifDir, "evidence", "replays"), 0o755)
+	os.MkdirAll(filepath.Join(evidenceDir(), "replays"), 0o755)
 	for _, f := range unknown {
 		if seenSig[f.Sig] {
 			continue
@@ -394,7 +394,7 @@ func main() {
 		if violations >= 5 {
 			break
 		}
-		path := filepath.Join(verifDir, "evidence", "replays", fmt.Sprintf("%s-%s.json", prop, engine.Hash(f.Unit, f.Sig)))
+		path := filepath.Join(evidenceDir(), "replays", fmt.Sprintf("%s-%s.json", prop, engine.Hash(f.Unit, f.Sig)))
 		b, _ := json.MarshalIndent(f, "", " ")
 		os.WriteFile(path, b, 0o644)
 		// replay 5x: the same schedule / input must fail the same way every time
